@@ -8,7 +8,7 @@ PROPS = {
             r13.rule_R13_dedupe, r13.rule_cost_marks, r13.rule_T4, r12.rule_R1c],
     "C05": [lambda ctx, rep: r9.rule_R9(ctx, rep, only=["yaep_parse"]), r9.rule_ambiguity_writers, r15.rule_R15],
     "C01": [r6.rule_R6_flags, r6.rule_R6_debug, r7.rule_T3, c10.rule_fixpoints, r15.rule_R15],
-    "C02": [r7.rule_T1, r13.rule_births, r4.rule_R4d, r13.rule_R13_marks, r12.rule_R1c],
+    "C02": [r7.rule_T1, r7.rule_translation_reading, r13.rule_births, r4.rule_R4d, r13.rule_R13_marks, r12.rule_R1c],
     "C06": [r7.rule_T3, r5.rule_token_intake, r7.rule_T1, r15.rule_R15],
     "C09": [r6.rule_R6_debug, r5.rule_setters, r12.rule_R12, r15.rule_R15],
     "C10": [c10.rule_code_table, c10.rule_fixpoints, r5.rule_undefined_typestate, r2e.rule_R2e, r5.rule_parse_entry],
